@@ -574,6 +574,10 @@ def inline_program(P):
             _desugar_any_all(B, bb, C, which)
             log.append("%s: %s(closure) rewritten as the loop it abbreviates" % (fid, which))
     # restore the dominance facts that a constant-returning helper turned into value flow
+    if os.environ.get("SA_THREAD_ALL"):
+        for fid in list(bodies):
+            if fid not in changed and len(bodies[fid].blocks) < 900:
+                changed[fid] = _clone_body(bodies[fid])
     for fid, B in changed.items():
         n = 0
         for _ in range(3):
